@@ -78,7 +78,10 @@ type ReplayFile struct {
 	Seed      uint64   `json:"seed"`
 	Run       int      `json:"run"`
 	Choices   []uint32 `json:"choices"`
-	Original  int      `json:"original_choice_count"`
+	// HistoryFrom >= 0: the violation needs the runs HistoryFrom..Run of this seed executed in one process
+	// (state in the code under test survives from one run to the next); replay re-executes exactly those.
+	HistoryFrom *int `json:"history_from,omitempty"`
+	Original    int  `json:"original_choice_count"`
 	Trace     []Event  `json:"trace"`
 	Message   string   `json:"message"`
 	RaceLog   string   `json:"race_report,omitempty"`
@@ -639,6 +642,34 @@ func replayOnce(bb *builtBin, b *Batch, prop string, choices []uint32, tag strin
 	return v, wo
 }
 
+// historyOnce re-executes the runs from..run of a seed in one fresh worker process (search mode over that range).
+func historyOnce(bb *builtBin, b *Batch, prop string, seed uint64, from, run int, tag string) (*Violation, *workerOut, int) {
+	out := filepath.Join(scratch, "histout-"+tag+".json")
+	os.Remove(out)
+	for _, f := range globs(out + ".*") {
+		os.Remove(f)
+	}
+	env := workerEnv(b, prop, "VW_MODE=search", fmt.Sprintf("VW_SEED=%d", seed), fmt.Sprintf("VERIF_SEED=%d", seed),
+		fmt.Sprintf("VW_FROM=%d", from), fmt.Sprintf("VW_TO=%d", run+1), "VW_SECONDS=0", "VW_KNOWN="+knownEnv(prop))
+	wo := runWorker(bb.path, env, out, 10*time.Minute)
+	v, _, vr := classify(wo, prop, b.HangIsViolation, b)
+	return v, wo, vr
+}
+
+func setHistory(path string, from int) {
+	data, err := os.ReadFile(path)
+	if err != nil {
+		return
+	}
+	var rf ReplayFile
+	if json.Unmarshal(data, &rf) != nil {
+		return
+	}
+	rf.HistoryFrom = &from
+	data, _ = json.MarshalIndent(rf, "", " ")
+	os.WriteFile(path, data, 0644)
+}
+
 func globs(p string) []string { m, _ := filepath.Glob(p); return m }
 
 func sameClass(a, b *Violation) bool {
@@ -942,6 +973,7 @@ func main() {
 		}
 		per := (runs + nw - 1) / nw
 		outs := make([]*workerOut, nw)
+		froms := make([]int, nw)
 		var wg sync.WaitGroup
 		t0 := time.Now()
 		for w := 0; w < nw; w++ {
@@ -952,6 +984,7 @@ func main() {
 				if to > runs {
 					to = runs
 				}
+				froms[w] = from
 				env := workerEnv(b, prop, "VW_MODE=search", fmt.Sprintf("VW_SEED=%d", seed), fmt.Sprintf("VERIF_SEED=%d", seed),
 					fmt.Sprintf("VW_FROM=%d", from), fmt.Sprintf("VW_TO=%d", to), fmt.Sprintf("VW_SECONDS=%g", secs), "VW_KNOWN="+knownEnv(prop))
 				outs[w] = runWorker(bb.path, env, filepath.Join(scratch, fmt.Sprintf("res-%d-%d.json", bi, w)), time.Duration(secs+600)*time.Second)
@@ -963,8 +996,9 @@ func main() {
 		var best *Violation
 		var bestChoices []uint32
 		bestRun := -1
+		bestFrom := 0
 		var bestWo *workerOut
-		for _, wo := range outs {
+		for wi, wo := range outs {
 			if wo.res != nil {
 				ev.merge(b, wo.res, bb)
 			}
@@ -976,7 +1010,7 @@ func main() {
 				die(2, "harness trouble in %s: %s: %s", b.Scen, v.Oracle, v.Message)
 			}
 			if best == nil || (vr >= 0 && vr < bestRun) {
-				best, bestChoices, bestRun, bestWo = v, ch, vr, wo
+				best, bestChoices, bestRun, bestWo, bestFrom = v, ch, vr, wo, froms[wi]
 			}
 		}
 		// known findings that were hit (and skipped) by the workers
@@ -1016,7 +1050,53 @@ func main() {
 			if v2 != nil {
 				got = v2.Oracle + "/" + v2.Signature
 			}
-			die(2, "violation %s/%s (run %d) did not reproduce on replay (got %s): reported as non-reproducible, not as a violation\n%s", best.Oracle, best.Signature, bestRun, got, lastLines(bestWo.output, 30)+"\n"+lastLines(wo2.output, 30))
+			// The run alone does not show it. Before calling it non-reproducible: state inside the code under
+			// test (a package-level cache, a pool) may have survived from earlier runs of the same worker
+			// process. Those runs are a pure function of the seed, so "runs from..run in one fresh process" is
+			// an exact replay too; find the shortest such history.
+			logf("run %d alone does not reproduce it (got %s): replaying it with the preceding runs of its process", bestRun, got)
+			hist := -1
+			var vh *Violation
+			var woh *workerOut
+			for back := 1; ; back *= 2 {
+				from := bestRun - back
+				if from < bestFrom {
+					from = bestFrom
+				}
+				v, wo, vr := historyOnce(bb, b, prop, seed, from, bestRun, "hist")
+				if sameClass(v, best) && vr == bestRun {
+					hist, vh, woh = from, v, wo
+					break
+				}
+				if from == bestFrom {
+					break
+				}
+			}
+			if hist < 0 {
+				die(2, "violation %s/%s (run %d) did not reproduce on replay (got %s), neither alone nor with the preceding runs %d..%d of its process: reported as non-reproducible, not as a violation\n%s", best.Oracle, best.Signature, bestRun, got, bestFrom, bestRun, lastLines(bestWo.output, 30)+"\n"+lastLines(wo2.output, 30))
+			}
+			// confirm once more (a history replay must itself be repeatable)
+			if v, _, vr := historyOnce(bb, b, prop, seed, hist, bestRun, "hist2"); !sameClass(v, best) || vr != bestRun {
+				die(2, "violation %s/%s (run %d) reproduced once with runs %d..%d but not twice: reported as non-reproducible, not as a violation", best.Oracle, best.Signature, bestRun, hist, bestRun)
+			}
+			vh.Message += fmt.Sprintf("\n[needs the runs %d..%d of seed %d executed in one process: state inside the code under test survives from one run to the next; the replay re-executes exactly those runs]", hist, bestRun, seed)
+			var trace []Event
+			if woh.res != nil {
+				trace = woh.res.Trace
+			}
+			path := writeReplay(prop, b, seed, bestRun, vh, bestChoices, trace, len(bestChoices), woh.raceLog)
+			setHistory(path, hist)
+			if f := isKnown(vh); f != nil {
+				fmt.Printf("KNOWN-FINDING: property=%s %s\n", f.prop, strings.TrimPrefix(f.text, "property="+f.prop+" "))
+				os.Remove(path)
+				continue
+			}
+			fmt.Printf("VIOLATION property=%s replay=%s\n", prop, path)
+			fmt.Printf("  oracle=%s signature=%s seed=%d runs=%d..%d (history replay)\n  %s\n", vh.Oracle, vh.Signature, seed, hist, bestRun, firstLines(vh.Message, 12))
+			ev.violations++
+			ev.violSample = fmt.Sprintf("%s/%s: %s", vh.Oracle, vh.Signature, firstLines(vh.Message, 3))
+			exit = 1
+			break
 		}
 		budget := 90 * time.Second
 		if tier == "thorough" {
@@ -1104,7 +1184,17 @@ func doReplay(prop string, spec *PropSpec, path string) int {
 		die(2, "replay file names scenario %q which property %s does not run", rf.Scenario, prop)
 	}
 	bb := buildScenario(b)
-	v, wo := replayOnce(bb, b, prop, rf.Choices, "replay")
+	var v *Violation
+	var wo *workerOut
+	if rf.HistoryFrom != nil {
+		var vr int
+		v, wo, vr = historyOnce(bb, b, prop, rf.Seed, *rf.HistoryFrom, rf.Run, "replay")
+		if v != nil && vr != rf.Run {
+			fmt.Printf("note: the history replay failed in run %d, the recorded one in run %d\n", vr, rf.Run)
+		}
+	} else {
+		v, wo = replayOnce(bb, b, prop, rf.Choices, "replay")
+	}
 	if v == nil {
 		fmt.Printf("replay of %s: no violation (the recorded one was %s/%s)\n", path, rf.Oracle, rf.Signature)
 		return 0
